@@ -1059,3 +1059,95 @@ func Corners(r *core.Rand) []Corner {
 	}
 	return out
 }
+
+// SizeLadder: lengths of the variable part of a structure between the few hundred bytes the
+// ordinary generators produce and the 65,535 maximum - powers of two and their neighbours, where
+// code that treats "large" inputs differently (pooled or chunked buffers, copy-or-alias
+// thresholds, two-byte length arithmetic) changes path.
+var SizeLadder = []int{255, 256, 257, 511, 512, 513, 1023, 1024, 1025, 2047, 2048, 2049, 4095, 4096, 4097, 8191, 8192, 8193, 16383, 16384, 16385, 32767, 32768, 32769, 49152, 65534, 65535}
+
+// Sized returns a well-formed encoding of the kind whose variable-length part (certificate
+// payload, excess key-certificate payload, options / properties mapping, encrypted inner data)
+// has a size from the ladder. ok is false for kinds without such a part.
+func Sized(kind string, arg int, r *core.Rand) (Case, bool) {
+	n := SizeLadder[r.Pick(len(SizeLadder))]
+	fit := func(fixed int) int { // the part must fit a two-byte length together with `fixed` other bytes
+		if n+fixed > 65535 {
+			return 65535 - fixed
+		}
+		return n
+	}
+	switch kind {
+	case "cert":
+		t := []byte{rm.CertHashcash, rm.CertHidden, rm.CertSigned, rm.CertMultiple, byte(6 + r.Pick(200))}[r.Pick(5)]
+		c := rm.Cert{Type: t, Payload: r.Bytes(n)}
+		return Case{Bytes: c.Encode(), Shape: Shape{"type": int(t), "plen": n, "sized": n}, Ctrl: []int{0, 1, 2}}, true
+	case "keycert":
+		sig := rm.KACSigTypes[r.Pick(len(rm.KACSigTypes))]
+		cr := rm.KACCryptoTypes[r.Pick(len(rm.KACCryptoTypes))]
+		c := rm.KeyCert(sig, cr, r.Bytes(fit(4)))
+		return Case{Bytes: c.Encode(), Shape: Shape{"sig": sig, "crypto": cr, "plen": len(c.Payload), "sized": n}, Ctrl: []int{0, 1, 2, 3, 4, 5, 6}}, true
+	case "kac", "dest", "dest_ls", "rident", "kac_elg_ed", "kac_x_ed":
+		var k rm.KAC
+		var sh Shape
+		switch kind {
+		case "kac":
+			k, sh = KAC(r, rm.KACSigTypes, rm.KACCryptoTypes)
+		case "dest", "dest_ls":
+			k, sh = KAC(r, rm.DestSigTypes, rm.IdentCryptoTypes)
+		case "rident":
+			k, sh = KAC(r, rm.RouterSigTypes, rm.IdentCryptoTypes)
+		case "kac_elg_ed":
+			k, sh = KACOf(r, 7, 0)
+		default:
+			k, sh = KACOf(r, 7, 4)
+		}
+		s, c, isKey, ok := k.Cert.KeyTypes()
+		if !isKey || !ok {
+			s, c = sh["sig"].(int), sh["crypto"].(int)
+			if s != 0 || c != 0 {
+				return Case{}, false
+			}
+		}
+		k.Cert = rm.KeyCert(s, c, r.Bytes(fit(4)))
+		sh["cert"], sh["sized"] = "KEY+extra", n
+		return Case{Bytes: k.Encode(), Shape: sh, Ctrl: kacCtrl(0)}, true
+	case "mapping":
+		m := mappingOfSize(r, n)
+		return Case{Bytes: m.Encode(), Shape: Shape{"pairs": len(m.Pairs), "sorted": m.Sorted(), "sized": n}, Ctrl: mappingCtrl(0, m)}, true
+	case "raddr":
+		a := RouterAddress(r)
+		a.Options = mappingOfSize(r, n)
+		return Case{Bytes: a.Encode(), Shape: Shape{"opts": len(a.Options.Pairs), "sized": n}}, true
+	case "rinfo":
+		ri, sh := RouterInfo(r)
+		if r.Chance(1, 2) || len(ri.Addrs) == 0 {
+			ri.Options = mappingOfSize(r, n)
+		} else {
+			ri.Addrs[r.Pick(len(ri.Addrs))].Options = mappingOfSize(r, n)
+		}
+		sh["sized"] = n
+		return Case{Bytes: ri.Encode(), Shape: sh}, true
+	case "leaseset2":
+		l, sh := LeaseSet2(r)
+		l.Options = mappingOfSize(r, n)
+		sh["sized"] = n
+		return Case{Bytes: l.Encode(), Shape: sh}, true
+	case "metaleaseset":
+		l, sh := MetaLeaseSet(r)
+		if r.Chance(1, 2) || len(l.Entries) == 0 {
+			l.Options = mappingOfSize(r, n)
+		} else {
+			l.Entries = append([]rm.MetaEntry{}, l.Entries...)
+			l.Entries[r.Pick(len(l.Entries))].Props = mappingOfSize(r, n)
+		}
+		sh["sized"] = n
+		return Case{Bytes: l.Encode(), Shape: sh}, true
+	case "encleaseset":
+		l, sh := EncryptedLeaseSet(r)
+		l.Inner = r.Bytes(n)
+		sh["inner"], sh["sized"] = n, n
+		return Case{Bytes: l.Encode(), Shape: sh}, true
+	}
+	return Case{}, false
+}
